@@ -272,9 +272,9 @@ func localPort(r *http.Request) string {
 	if r == nil {
 		return ""
 	}
-	n := strings.Index(r.Host, ":")
-	if n > 0 && n < len(r.Host)-1 {
-		return r.Host[n+1:]
+	// the host may be an IPv6 address in brackets which contains colons itself
+	if host, port, err := net.SplitHostPort(r.Host); err == nil && host != "" && port != "" {
+		return port
 	}
 	if r.TLS != nil {
 		return "443"
